@@ -31,12 +31,17 @@ pub fn bicliques() -> Vec<(usize, usize)> {
             v.push((m, n));
         }
     }
-    v.extend([(1, 64), (64, 1), (33, 31)]);
+    v.extend([(1, 64), (64, 1), (33, 31), (1, 130), (130, 1), (66, 7), (11, 66), (70, 3), (3, 70), (100, 100), (128, 5), (65, 65)]);
     v
 }
 
+/// (first, second): the generator is called with `first`, then with `second`
+/// on the same thread; the SECOND result is judged (state carried over
+/// between calls, e.g. a cache that only grows).
+pub const SEQS: [(usize, usize); 7] = [(70, 40), (257, 129), (129, 64), (64, 33), (33, 32), (1025, 100), (40, 70)];
+
 pub fn n_cases() -> usize {
-    GENS.len() * orders().len() + bicliques().len() + 3 + (GENS.len() + 3 + 3)
+    GENS.len() * orders().len() + bicliques().len() + 3 + (GENS.len() + 3 + 3) + (GENS.len() + 1) * SEQS.len()
 }
 
 fn closed_form(g: usize, n: usize) -> Model {
@@ -168,6 +173,65 @@ pub fn case(idx: u64, _seed: u64, p: &Params, o: &mut CaseOut) {
         return;
     }
     k -= 3;
+    if k >= GENS.len() + 3 + 3 {
+        let k = k - (GENS.len() + 3 + 3);
+        let (g, (a, b)) = (k / SEQS.len(), SEQS[k % SEQS.len()]);
+        if a.max(b) > max {
+            o.skipped = true;
+            return;
+        }
+        let name;
+        if g < GENS.len() {
+            name = GENS[g];
+            let m = closed_form(g, b.max(if g == 6 { 4 } else { 1 }));
+            let (a, b) = (a.max(4), b.max(4));
+            let al = {
+                let _first: AdjacencyList = make(g, a);
+                make::<AdjacencyList>(g, b)
+            };
+            let am = {
+                let _first: AdjacencyMap = make(g, a);
+                make::<AdjacencyMap>(g, b)
+            };
+            let mx = {
+                let _first: AdjacencyMatrix = make(g, a);
+                make::<AdjacencyMatrix>(g, b)
+            };
+            let el = {
+                let _first: EdgeList = make(g, a);
+                make::<EdgeList>(g, b)
+            };
+            check_all(o, &format!("{name}({b}) after {name}({a})"), &m, al, am, mx, el);
+        } else {
+            name = "biclique";
+            let m = biclique_model(b, 3);
+            let al = {
+                let _f = AdjacencyList::biclique(a, 5);
+                AdjacencyList::biclique(b, 3)
+            };
+            let am = {
+                let _f = AdjacencyMap::biclique(a, 5);
+                AdjacencyMap::biclique(b, 3)
+            };
+            let mx = {
+                let _f = AdjacencyMatrix::biclique(a, 5);
+                AdjacencyMatrix::biclique(b, 3)
+            };
+            let el = {
+                let _f = EdgeList::biclique(a, 5);
+                EdgeList::biclique(b, 3)
+            };
+            check_all(o, &format!("biclique({b},3) after biclique({a},5)"), &m, al, am, mx, el);
+        }
+        fp.s("seq").s(name).us(a).us(b);
+        o.fp = fp.0;
+        o.nontrivial = true;
+        o.bump("second_call_after_a_different_order");
+        if o.want_desc {
+            o.desc = format!("{name}: order {b} right after order {a} on the same thread, all four types");
+        }
+        return;
+    }
     // inadmissible parameters must panic
     let (what, desc): (String, String);
     macro_rules! all_panic {
